@@ -143,12 +143,23 @@ def judge(case: Dict, per_variant: List[Dict], vs: List[Dict]) -> CaseResult:
             break
     # re-seeding reproduces the episode: consecutive episodes started by the same reset(seed=s) with the same actions
     eps = base["episodes"]
-    for k in range(0, len(eps) - 1) if case["src"] != "folder" else []:
+    for k in range(0, len(eps) - 1) if case["src"] not in ("folder", "genfolder") else []:
         if eps[k]["start"] == eps[k + 1]["start"] and len(eps[k]["steps"]) == len(eps[k + 1]["steps"]):
             d = diff_episode(eps[k], eps[k + 1])
             if d:
                 res.violate(f"reseed-not-reproducible:{d[0]}", f"episodes {k},{k + 1} after reset(seed): {d[1]}")
                 break
+    n = case.get("sched_len")
+    if case["src"] in ("folder", "genfolder") and n:
+        for k in range(0, len(eps) - n):
+            if eps[k]["start"] == eps[k + n]["start"] and len(eps[k]["steps"]) == len(eps[k + n]["steps"]):
+                d = diff_episode(eps[k], eps[k + n])
+                if d is None and eps[k].get("state0") != eps[k + n].get("state0"):
+                    d = ("state-after-reset", "normalised simulation state right after reset differs")
+                if d:
+                    res.violate(f"same-schedule-entry-not-reproducible:{d[0]}",
+                                f"episodes {k} and {k + n} use the same schedule entry, seed and actions: {d[1]}")
+                    break
     nonidle = 0
     for ep in eps:
         for s in ep["steps"]:
@@ -301,8 +312,10 @@ def uc7_short_case(draw, which: int = 0):
          "src/primaite/config/_package_data/uc7_config_tap003.yaml"][which % 2]
     s = draw(SEEDS)
     acts = [["step", 0] for _ in range(draw(st.integers(6, 10)))]
-    return {"src": "shipped", "path": p, "max_len": None, "cfg_seed": draw(st.sampled_from([None, 0, 3])),
-            "ops": [["reset", s]] + acts + [["reset", s]] + acts}
+    c = {"src": "shipped", "path": p, "max_len": None, "cfg_seed": draw(st.sampled_from([None, 0, 3])),
+         "ops": [["reset", s]] + acts + [["reset", s]] + acts}
+    c["tweak"] = "tap_variance"  # the threat actors' schedule gets a jitter (variance 2): it must follow the seed
+    return c
 
 
 @st.composite
@@ -314,10 +327,39 @@ def folder_case(draw, rot: int = 0):
     p = draw(st.sampled_from(fs))
     s = draw(SEEDS)
     ops = []
-    for _ in range(draw(st.integers(2, 5))):  # several episodes: the schedule advances with every reset
+    if draw(st.booleans()):
+        for _ in range(draw(st.integers(2, 5))):  # several episodes: the schedule advances with every reset
+            ops.append(["reset", s])
+            ops.extend(["step", draw(st.integers(0, 10 ** 6))] for _ in range(draw(st.integers(2, 6))))
+        return {"src": "folder", "path": p, "ops": ops}
+    # the same actions in every episode, for two laps of the schedule and a bit: episodes that use the SAME schedule
+    # entry (episode k and k + len(schedule)) after the same reset(seed=s) must then be identical
+    import yaml as _yaml
+
+    from ..envdrive import _resolve
+
+    n = len(_yaml.safe_load(open(os.path.join(_resolve(p), "schedule.yaml")))["schedule"])
+    acts = [["step", draw(st.integers(0, 10 ** 6))] for _ in range(draw(st.integers(2, 5)))]
+    for _ in range(2 * n + 1):
         ops.append(["reset", s])
-        ops.extend(["step", draw(st.integers(0, 10 ** 6))] for _ in range(draw(st.integers(2, 6))))
-    return {"src": "folder", "path": p, "ops": ops}
+        ops.extend(acts)
+    return {"src": "folder", "path": p, "ops": ops, "sched_len": n}
+
+
+@st.composite
+def genfolder_case(draw):
+    """A generated ROUTED/DMZ scenario written as an episode-scheduled folder (routers and firewalls are the node types
+    whose construction consumes their config), the same actions in every episode for two laps and a bit."""
+    c = draw(gen_case_strategy(max_ops=6, families=("ROUTED",)))
+    c["spec"]["agents"]["green"] = 2
+    n = draw(st.integers(1, 2))
+    s = draw(SEEDS)
+    acts = [o for o in c["ops"] if o[0] in ("step", "cat")][:4] or [["step", 0]]
+    ops = []
+    for _ in range(2 * n + 1):
+        ops.append(["reset", s])
+        ops.extend(acts)
+    return {"src": "genfolder", "spec": c["spec"], "n_variants": n, "ops": ops, "sched_len": n, "state_digest": True}
 
 
 def collect(strategy, n: int, seed: int) -> List[Dict]:
@@ -350,6 +392,8 @@ def worker(ctx: Ctx):
         cases += collect(folder_case(rot=ctx.idx // 2 + ctx.seed), 1 if q else 5, ctx.wseed * 10 + 2)
     if ctx.idx < 2 or not q:  # quick: worker 0 runs the TAP001 scenario, worker 1 the TAP003 one
         cases += collect(uc7_long_case(which=ctx.idx), 1 if q else 2, ctx.wseed * 10 + 3)
+    if ctx.idx in (0, 1) or not q:
+        cases += collect(genfolder_case(), 1, ctx.wseed * 10 + 7)
     if ctx.idx in (2, 3) or not q:  # quick: workers 2 and 3 run a short UC7 pair under every variant incl. logging
         cases += collect(uc7_short_case(which=ctx.idx), 1, ctx.wseed * 10 + 5)
     if ctx.idx in (4, 5, 6, 7) or not q:  # probability trials decide the episode (UC2, early attack, 0 < p < 1)
